@@ -20,10 +20,10 @@ CLAIMED = {
               "criterion by criterion (capri_eq_table), is total with ordered thresholds (capri_total), equals the best class whose requirement "
               "holds (capri_eq_best_class, capri_concrete for the literals in the source), never worsens when a measure improves (capri_monotone); "
               "DockQ equals its formula (dockq_formula), lies in [0,1] (dockq_range), is 1 for a perfect model (dockq_perfect), is monotone "
-              "(dockq_monotone) -- range and monotonicity for every rounding function that is monotone and exact on 0..3, i.e. for the "
-              "floating-point evaluation order in the source. Correspondence: all 343 threshold cells (exhaustive), the doubles adjacent to "
+              "(dockq_monotone) -- range and monotonicity for every rounding function that is monotone and exact on 0..3, and binary64 "
+              "round-to-nearest-even is proved to be one (flok_toDouble, dockq_range_binary64, dockq_monotone_binary64), i.e. for the floating-point evaluation order in the source. Correspondence: all 343 threshold cells (exhaustive), the doubles adjacent to "
               "every threshold, random points; DockQ compared bit-exactly against the translated formula evaluated with binary64 rounding."),
-        note=BASE_NOTE + "Assumed: IEEE round-to-nearest is monotone and exact on 0,1,2,3 (FlOK); C pow(x,2.0) = correctly rounded x*x.",
+        note=BASE_NOTE + "Assumed: Py.toDouble is IEEE binary64 rounding (validated bit-exactly on every sampled DockQ point; subnormals/overflow not modelled); C pow(x,2.0) = correctly rounded x*x.",
         technique='Lean 4 theorems over the translated source + exhaustive threshold-cell correspondence',
         design_ref='DESIGN.md 5/C12'),
     'C01': dict(
@@ -63,6 +63,33 @@ CLAIMED = {
         note=BASE_NOTE + "Route agreement is sampled; values compared after the library's own rounding.",
         technique='Lean 4 theorem (zone round trip for all chains/numbers) over the translated reader/writer + metamorphic route comparison',
         design_ref='DESIGN.md 5/C09, 12'),
+    'C16': dict(
+        category='proof',
+        text=("Every routine is modelled as an effect program (a tree of file actions whose continuation is a function of what was observed; parsing, zones and scores uninterpreted), "
+              "with a role per path and an interleaving semantics (one action of one task per step; a schedule is any list of task indices). Theorems (Props/C16.lean): decided on the "
+              "effect list regenerated from the source on every run - no shell, no literal scratch name, zone files published by one os.replace (source_no_shell, source_no_literal_scratch, "
+              "source_zone_published_by_replace); for every routine, option and branch the footprint is inputs + requested outputs + the zone cache + an own temp that is gone at the end "
+              "(footprint_sound); unrelated files unchanged, inputs unchanged, value and zone left behind identical for any two directories agreeing on inputs and cache (frame_fs, inputs_unchanged, "
+              "depends_on_args_only); for ANY number of computations in one directory and EVERY schedule each finished task has exactly its solo value or exception, incl. routines sharing one zone-file "
+              "cache over one reference (noninterference, noninterference_every_schedule - rely/guarantee invariant by induction on the schedule); regressions: the old in-place writer and the old fixed-name "
+              "scratch database interfere (inplace_write_counterexample, fixed_scratch_counterexample). Tie to the code: audit-hook effect traces of all 13 routines x options in empty and pre-seeded "
+              "directories compared with the model's traces and judged by the Spec; directory snapshots; a deterministic scheduler enumerates interleavings of real runs at file-operation granularity "
+              "(supporting exploration) and replays schedules in the Lean model."),
+        note=BASE_NOTE + "Not proved: os.replace atomic, one audited call indivisible, SQLite's own I/O; a routine that only READS a shared zone file while another publishes it; the zone round trip enters as a hypothesis (proved separately as C09 read_write_zone_file).",
+        technique='Lean 4 proof over all schedules of an effect-program model + effect-trace correspondence (audit hooks) + enumerated interleavings of real runs',
+        design_ref='DESIGN.md 5/C16, 12'),
+    'C20': dict(
+        category='proof',
+        text=("Store model: disk image per path, session with pending changes, rollback journal; DDL published at once when nothing is pending, DML pending until commit; paths abstract (the model "
+              "cannot inspect a name). Theorems (Props/C20.lean): for every scenario and every crash point a fresh reader finds exactly the last committed state - no atoms or a complete table, never a part "
+              "(crash_atomic, crash_never_partial, crash_atomic_after_open); close(keep) leaves exactly the table the object held (keep_leaves_table); close(remove) removes exactly that file and no other path "
+              "is touched (remove_removes_exactly, victims_untouched); every action names only p or p-journal and none is a shell, decided on the effect list regenerated from the source "
+              "(names_are_data; regression old_open_is_not_data). Tie to the code: scenarios create[,modify][,commit][,modify],close(keep|remove) read back by a stock sqlite3 connection; a kill before every "
+              "statement/commit/close/remove/connect in forked children (fault enumeration), SIGKILL injected by strace inside SQLite's commit (thorough: every injection point of three scenarios); every file name "
+              "of length <= 3 over the hostile alphabet (thorough; a seeded sample in quick) plus crafted names among hashed victim files with process spawning forbidden."),
+        note=BASE_NOTE + "Trusted: SQLite's journal makes commit one atomic step and crash = rollback (exercised by the kills, not proved); the OS removes exactly the named file; open (remove old + connect) is one step in the model.",
+        technique='Lean 4 proof over all crash points of a transactional store model + read-back correspondence + fault enumeration (process kills, strace injection) + hostile file names',
+        design_ref='DESIGN.md 5/C20, 12'),
 }
 
 checks = []
